@@ -54,13 +54,15 @@ ListCalls(s) ==
   \cup {[op |-> "Swap", i |-> i, j |-> j] : i \in RawIdx(s), j \in RawIdx(s)}
   \cup {[op |-> "SetFIFO", b |-> b] : b \in BOOLEAN}
 
-OptCalls == {[op |-> "SetOpt", f |-> f, m |-> m] : f \in OptFlags, m \in {"on", "off", "toggle"}}
+\* dep = TRUE: the call is issued through the deprecated alias method (Paren, Fold, NoPadding, ...);
+\* the specification makes no difference between the two spellings
+OptCalls == {[op |-> "SetOpt", f |-> f, m |-> m, dep |-> d] : f \in OptFlags, m \in {"on", "off", "toggle"}, d \in BOOLEAN}
 
 PolCalls == {[op |-> "SetPushPolicy", on |-> TRUE, acc |-> SetToSeq(A)] : A \in SUBSET Vals}
        \cup {[op |-> "SetPushPolicy", on |-> FALSE, acc |-> <<>>]}
 
 LifeCalls == {[op |-> "Free"], [op |-> "SetErr", on |-> TRUE], [op |-> "SetErr", on |-> FALSE],
-              [op |-> "SetMutex"]}
+              [op |-> "SetMutex", dep |-> FALSE], [op |-> "SetMutex", dep |-> TRUE]}
 
 DefragCalls(s) ==
   \* Defrag is specified only while every nil run is shorter than the limit
@@ -72,10 +74,10 @@ SettingCalls(s) ==
   \cup {[op |-> "SetDelimiter", form |-> "str", v |-> v] : v \in {"", ","}}
   \cup {[op |-> "SetDelimiter", form |-> "rune", v |-> ";"], [op |-> "SetDelimiter", form |-> "nil", v |-> ""],
         [op |-> "SetDelimiter", form |-> "int", v |-> ""]}
-  \cup {[op |-> "SetSymbol", parts |-> p] :
+  \cup {[op |-> "SetSymbol", parts |-> p, dep |-> d] : d \in BOOLEAN,
           p \in {<<>>, <<[form |-> "str", v |-> "&"]>>, <<[form |-> "str", v |-> "|"], [form |-> "rune", v |-> "|"]>>,
                  <<[form |-> "int", v |-> ""], [form |-> "str", v |-> "&"]>>}}
-  \cup {[op |-> "SetEncap", pairs |-> p] :
+  \cup {[op |-> "SetEncap", pairs |-> p, dep |-> d] : d \in BOOLEAN,
           p \in {<<>>, <<<<"\"">>>>, <<<<"<", ">">>>>, <<<<"<", ">">>, <<"\"">>>>, <<<<"\"", ">">>>>,
                  <<<<"(", ")">>>>}}
 
@@ -98,6 +100,7 @@ ClosureCalls ==
 
 Calls(s) ==
        (IF "list" \in Fams THEN ListCalls(s) ELSE {})
+  \cup (IF "err" \in Fams THEN {[op |-> "SetErr", on |-> TRUE], [op |-> "SetErr", on |-> FALSE]} ELSE {})
   \cup (IF "closures" \in Fams THEN ClosureCalls ELSE {})
   \cup (IF "loglevel" \in Fams THEN LogCalls ELSE {})
   \cup (IF "grow" \in Fams THEN GrowCalls ELSE {})
@@ -156,7 +159,7 @@ Spec == Init /\ [][Next]_vars
 (* action properties.                                                      *)
 
 TypeOK == /\ st.live \in BOOLEAN /\ st.opts \subseteq Flags /\ st.cap \in Nat
-          /\ st.fifo \in BOOLEAN /\ st.err \in {"none", "set"}
+          /\ st.fifo \in BOOLEAN /\ st.err \in {"none", "user", "policy", "lib"}
 
 \* C03: a positive capacity is never exceeded; Cap/Avail/IsFull agree
 CapInv == /\ (st.live /\ st.cap > 0) => Len(st.e) <= st.cap
@@ -238,13 +241,14 @@ PolicyDecides(s, t) ==
         /\ \A n \in (Len(s.e) + 1)..Len(t.s.e) : t.s.e[n] \in s.acc
         /\ Len(t.ret) <= Len(t.c.xs)
         /\ (Full(s.e, s.cap) => t.ret = <<>>)
-        /\ (t.s.err # s.err => \E n \in 1..Len(t.ret) : t.ret[n] \notin s.acc)
+        /\ (t.s.err # s.err => (t.s.err = "policy" /\ \E n \in 1..Len(t.ret) : t.ret[n] \notin s.acc))
+        /\ ((\E n \in 1..Len(t.ret) : t.ret[n] \notin s.acc) => t.s.err = "policy")     \* Err() reports THAT rejection
 
 \* C14: installed closures decide; removing one restores the built-in behaviour;
 \* BASIC refuses a presentation policy, records an error and renders empty
 ClosuresDecide(s, t) ==
   (t.on = "st" /\ Usable(s)) =>
-    /\ (t.c.op = "SetPresentationPolicy" /\ s.kind = "BASIC" => (~t.s.ppol /\ t.s.err = "set" /\ Obs(t.s).strsrc = "empty"))
+    /\ (t.c.op = "SetPresentationPolicy" /\ s.kind = "BASIC" => (~t.s.ppol /\ t.s.err = "lib" /\ Obs(t.s).strsrc = "empty"))
     /\ (t.c.op = "SetValidityPolicy" => (Obs(t.s).valid = "err") = (t.c.mode = "bad"))
     /\ (t.c.op = "SetValidityPolicy" /\ t.c.mode = "bad" => Obs(t.s).strsrc = "empty")
     /\ (t.c.op \in {"SetPresentationPolicy", "SetEqualityPolicy", "SetUnmarshaler", "SetMarshaler"} /\ ~t.c.on /\ s.kind # "BASIC"
